@@ -13,7 +13,7 @@ func init() {
 }
 
 func vStdCfg(prefix, idBase string, nDocs int, wide int) gCfg {
-	return gCfg{prefix: prefix, idBase: idBase, nDocs: nDocs, wide: wide, freqZero: true, maxAP: 1,
+	return gCfg{prefix: prefix, idBase: idBase, nDocs: nDocs, wide: wide, freqZero: true, maxAP: 1, idDV: true,
 		fields: []gField{
 			{name: "f", terms: []string{"", "a"}, tv: true, maxLocs: 1, dv: true, store: true},
 			{name: "g", terms: []string{"é"}, dv: true},
